@@ -457,4 +457,4 @@ def run_shard(ctx):
                 pass
         return t
 
-    ctx.run_given(mk, ctx.budget(48000, 900000))
+    ctx.run_given(mk, ctx.budget(48000, 500000))
